@@ -214,5 +214,5 @@ def run(ctx):
     ctx.cov['rule'] = ('all component tuples of length 1..4 over {0,1,9,10,99,100,999} (first non-zero) as string and tuple, suffix '
                        'classes on the last component, malformed texts; equal-length pairs for order; all pairs of a 60-element PEP 440 '
                        'lattice (7 releases x 8 pre/post/dev markers + epochs) x same_major; conjunctions of 1..3 predicates over the '
-                       'six operators x candidates with random blanks; malformed predicates; random components at gamma level')
+                       'six operators x candidates with random blanks; malformed predicates; random versions of 1..9 components at gamma level; predicate objects asked in four orders and from four threads')
     ctx.cov['exhaustive'] = True
